@@ -64,13 +64,42 @@ Proof.
   rewrite HJ, Nat.sub_diag. cbn. split; auto.
 Qed.
 
+Lemma with_oracle_good s orc : wf s -> good s (with_oracle s orc).
+Proof.
+  intros W. apply good_noop; auto. unfold noop; cbn. splits; auto; try lia. apply deq_refl.
+Qed.
+
+Lemma with_oracle_same s orc : same s (with_oracle s orc).
+Proof. split; auto. Qed.
+
+Lemma pop_oracle_good s x s' : wf s -> pop_oracle s = (x, s') -> good s s' /\ same s s'.
+Proof.
+  unfold pop_oracle. intros W H. destruct (oracle s); inversion H; subst.
+  - split; auto using good_refl, same_refl.
+  - split; auto using with_oracle_good, with_oracle_same.
+Qed.
+
+(* no program of the table uses STAKE / UNSTAKE / UNSTAKEALL / AUTHCALL *)
+Definition custom_free (progs : list prog) : Prop :=
+  forall c p, lookup progs c = Some p -> forallb (fun a => negb (is_custom a)) (acts p) = true.
+
+(* the precompiled contracts' accounts exist (evm.Call creates the account of an absent precompile, also in a static frame) *)
+Definition pc_exist (d : data) : Prop := forall a ok, precompile a = Some ok -> exists_of d a = true.
+
+(* what a static frame guarantees, under the two guards *)
+Definition static_same (progs : list prog) (st : bool) (s s' : state) : Prop :=
+  st = true -> custom_free progs -> pc_exist (dat s) -> same s s'.
+
+Lemma pc_exist_same s s' : same s s' -> pc_exist (dat s) -> pc_exist (dat s').
+Proof. intros [D _] H. rewrite D. exact H. Qed.
+
 Section Frames.
   Variable progs : list prog.
   Variable rec : ctx -> N -> state -> rres.
 
   Definition rec_ok : Prop :=
     forall cx c s o l s', wf s -> rec cx c s = (o, l, s') ->
-      good s s' /\ (static cx = true -> same s s').
+      good s s' /\ static_same progs (static cx) s s'.
 
   Hypothesis Hrec : rec_ok.
 
@@ -85,124 +114,158 @@ Section Frames.
     intros W G H. destruct r as [[o4 l4] s4].
     pose proof (good_trans _ _ _ (good_snapshot s W) G) as G04.
     unfold finish_call in H.
-    destruct o4.
-    - inversion H; subst. splits; auto. cbn; discriminate.
-    - destruct (revert_restores s s4 (g_ext _ _ G)) as (s5 & R5 & N5 & _).
-      rewrite R5 in H. inversion H; subst. splits; auto using good_noop.
-      intros S. eapply revert_same; eauto. apply G.
-    - destruct (revert_restores s s4 (g_ext _ _ G)) as (s5 & R5 & N5 & _).
-      rewrite R5 in H. inversion H; subst. splits; auto using good_noop.
-      intros S. eapply revert_same; eauto. apply G.
-    - inversion H; subst. splits; auto. cbn; discriminate.
-    - inversion H; subst. splits; auto. cbn; discriminate.
+    destruct o4;
+      try (inversion H; subst; splits; auto; cbn; discriminate);
+      destruct (revert_restores s s4 (g_ext _ _ G)) as (s5 & R5 & N5 & _);
+      rewrite R5 in H; inversion H; subst; splits; auto using good_noop;
+      intros S; eapply revert_same; eauto; apply G.
+  Qed.
+
+  Lemma run_target_ok cx' a s o l s' :
+    wf s -> run_target rec cx' a s = (o, l, s') ->
+    good s s' /\ static_same progs (static cx') s s'.
+  Proof.
+    intros W H. unfold run_target in H. destruct (precompile a).
+    - destruct (pop_oracle s) as [f s1] eqn:P. inversion H; subst.
+      destruct (pop_oracle_good _ _ _ W P); split; auto. intros _ _ _; auto.
+    - eapply Hrec; eauto.
+  Qed.
+
+  (* run the target after the Snapshot taken at s, then the epilogue *)
+  Lemma enter_ok s s3 keep cx' a o l s' :
+    wf s -> good (snd (snapshot s)) s3 ->
+    finish_call (fst (snapshot s)) keep (run_target rec cx' a s3) = (o, l, s') ->
+    good s s' /\ (is_fail o = true -> noop s s') /\
+    (static cx' = true -> custom_free progs -> pc_exist (dat s) -> same s s3 -> same s s').
+  Proof.
+    intros W G3 H.
+    destruct (run_target rec cx' a s3) as [[o4 l4] s4] eqn:R.
+    destruct (run_target_ok _ _ _ _ _ _ (g_wf _ _ G3) R) as [G4 S4].
+    destruct (finish_call_ok s keep (o4, l4, s4) o l s' W (good_trans _ _ _ G3 G4) H) as (A & B & C).
+    splits; auto. intros St CF PE S3. apply C. eapply same_trans; [exact S3|].
+    apply S4; auto. eapply pc_exist_same; eauto.
+  Qed.
+
+  (* evm.Call / evm.AuthCall from the Snapshot on; s is the state before the Snapshot *)
+  Lemma call_body_ok cx payer target value s o l s' :
+    wf s -> call_body rec cx (fst (snapshot s)) payer target value (snd (snapshot s)) = (o, l, s') ->
+    good s s' /\ (is_fail o = true -> noop s s') /\
+    (static cx = true -> custom_free progs -> pc_exist (dat s) -> value = 0 -> same s s').
+  Proof.
+    intros W H. unfold call_body in H. cbv zeta in H.
+    set (s1 := snd (snapshot s)) in *.
+    assert (G1 : good s s1) by (apply good_snapshot; auto).
+    assert (GO : forall s2, good s1 s2 ->
+              forall o l s',
+              (match precompile target with
+               | Some _ => finish_call (fst (snapshot s)) true
+                             (run_target rec (mkCtx target (static cx) (depth cx + 1) (origin cx)) target (push (transfer payer target value) s2))
+               | None =>
+                   if code_of (dat (push (transfer payer target value) s2)) target =? 0
+                   then (OOk, [], push (transfer payer target value) s2)
+                   else finish_call (fst (snapshot s)) true
+                          (run_target rec (mkCtx target (static cx) (depth cx + 1) (origin cx)) target (push (transfer payer target value) s2))
+               end) = (o, l, s') ->
+              good s s' /\ (is_fail o = true -> noop s s') /\
+              (static cx = true -> custom_free progs -> pc_exist (dat s) -> value = 0 -> same s s2 -> same s s')).
+    { intros s2 G2 o0 l0 s0 H0.
+      set (s3 := push (transfer payer target value) s2) in *.
+      assert (G3 : good s1 s3).
+      { eapply good_trans; [exact G2|]. apply good_push; auto using transfer_ok, kl_transfer. apply G2. }
+      assert (S3 : value = 0 -> same s s2 -> same s s3).
+      { intros V X. eapply same_trans; [exact X|]. subst value. apply push_id. apply transfer_zero. }
+      destruct (precompile target).
+      - destruct (enter_ok _ _ _ _ _ _ _ _ W G3 H0) as (A & B & C). splits; auto.
+      - destruct (code_of (dat s3) target =? 0).
+        + inversion H0; subst. splits.
+          * eapply good_trans; eauto.
+          * cbn; discriminate.
+          * intros _ _ _ V X. apply S3; auto.
+        + destruct (enter_ok _ _ _ _ _ _ _ _ W G3 H0) as (A & B & C). splits; auto. }
+    destruct (exists_of (dat s1) target) eqn:EX.
+    - destruct (GO s1 (good_refl _ (g_wf _ _ G1)) _ _ _ H) as (A & B & C). splits; auto.
+      intros St CF PE V. apply C; auto. apply same_snapshot.
+    - destruct (precompile target) eqn:PC.
+      + assert (G2 : good s1 (push (get_or_new target) s1))
+          by (apply good_push; auto using get_or_new_ok, kl_get_or_new; apply G1).
+        pose proof (GO _ G2 o l s') as X. destruct (X H) as (A & B & C). splits; auto.
+        intros St CF PE V. specialize (PE _ _ PC). change (dat s1) with (dat s) in EX. congruence.
+      + destruct (value =? 0) eqn:V0.
+        * inversion H; subst. splits; auto. cbn; discriminate. intros; apply same_snapshot.
+        * assert (G2 : good s1 (push (get_or_new target) s1))
+            by (apply good_push; auto using get_or_new_ok, kl_get_or_new; apply G1).
+          pose proof (GO _ G2 o l s') as X. destruct (X H) as (A & B & C). splits; auto.
+          intros St CF PE V. subst value. discriminate.
   Qed.
 
   Lemma do_call_ok cx kind target value s o l s' :
     wf s -> do_call rec cx kind target value s = (o, l, s') ->
     good s s' /\ (is_fail o = true -> noop s s') /\
-    (static cx = true -> (kind = KCall -> value = 0) -> same s s').
+    (static cx = true -> custom_free progs -> pc_exist (dat s) -> (kind = KCall -> value = 0) -> same s s').
   Proof.
     intros W H. unfold do_call in H.
     destruct (max_depth <? depth cx).
     { inversion H; subst. splits; auto using good_refl, noop_refl, same_refl. }
     destruct kind.
-    - (* CALL *)
-      destruct (negb (value =? 0) && (bal (dat s) (self cx) <? value)) eqn:EB.
+    - destruct (negb (value =? 0) && (bal (dat s) (self cx) <? value)).
+      { inversion H; subst. splits; auto using good_refl, noop_refl, same_refl. }
+      destruct (call_body_ok _ _ _ _ _ _ _ _ W H) as (A & B & C). splits; auto.
+    - destruct (bal (dat s) (self cx) <? value).
       { inversion H; subst. splits; auto using good_refl, noop_refl, same_refl. }
       cbv zeta in H.
+      destruct (enter_ok _ _ _ _ _ _ _ _ W (good_refl _ (snapshot_wf _ W)) H) as (A & B & C).
+      splits; auto. intros St CF PE _. apply C; auto. apply same_snapshot.
+    - cbv zeta in H.
+      destruct (enter_ok _ _ _ _ _ _ _ _ W (good_refl _ (snapshot_wf _ W)) H) as (A & B & C).
+      splits; auto. intros St CF PE _. apply C; auto. apply same_snapshot.
+    - cbv zeta in H.
       set (s1 := snd (snapshot s)) in *.
-      assert (G1 : good s s1) by (apply good_snapshot; auto).
-      (* the common continuation *)
-      assert (GO : forall s2, good s1 s2 -> (value = 0 -> same s s2) ->
-                forall o l s',
-                (let s3 := push (transfer (self cx) target value) s2 in
-                 let c := code_of (dat s3) target in
-                 if c =? 0 then (OOk, [], s3)
-                 else finish_call (fst (snapshot s)) true (rec (mkCtx target (static cx) (depth cx + 1)) c s3)) = (o, l, s') ->
-                good s s' /\ (is_fail o = true -> noop s s') /\
-                (static cx = true -> (KCall = KCall -> value = 0) -> same s s')).
-      { intros s2 G2 S2 o0 l0 s0 H0. cbv zeta in H0.
-        set (s3 := push (transfer (self cx) target value) s2) in *.
-        assert (G3 : good s1 s3).
-        { eapply good_trans; [exact G2|]. apply good_push; auto using transfer_ok, kl_transfer. apply G2. }
-        assert (S3 : value = 0 -> same s s3).
-        { intros V. eapply same_trans; [apply S2; auto|]. subst value. apply push_id. apply transfer_zero. }
-        destruct (code_of (dat s3) target =? 0).
-        - inversion H0; subst. splits.
-          + eapply good_trans; eauto.
-          + cbn; discriminate.
-          + intros _ V. apply S3; auto.
-        - destruct (rec (mkCtx target (static cx) (depth cx + 1)) (code_of (dat s3) target) s3) as [[o4 l4] s4] eqn:R.
-          destruct (Hrec _ _ _ _ _ _ (g_wf _ _ G3) R) as [G4 S4].
-          destruct (finish_call_ok s true (o4, l4, s4) o0 l0 s0 W (good_trans _ _ _ G3 G4) H0) as (A & B & C).
-          splits; auto; try (intros St V; apply C; eapply same_trans; [apply S3; auto | apply S4; auto]). }
-      destruct (exists_of (dat s1) target).
-      + eapply GO; eauto. apply good_refl. apply G1. intros; apply same_snapshot.
-      + destruct (value =? 0) eqn:V0.
-        * inversion H; subst. splits; auto. cbn; discriminate. intros; apply same_snapshot.
-        * eapply GO; [| |exact H].
-          -- apply good_push; auto using get_or_new_ok, kl_get_or_new. apply G1.
-          -- intros V; subst; discriminate.
-    - (* CALLCODE *)
-      destruct (bal (dat s) (self cx) <? value).
-      { inversion H; subst. splits; auto using good_refl, noop_refl, same_refl. }
-      cbv zeta in H. set (s1 := snd (snapshot s)) in *.
-      assert (G1 : good s s1) by (apply good_snapshot; auto).
-      destruct (rec (mkCtx (self cx) (static cx) (depth cx + 1)) (code_of (dat s1) target) s1) as [[o4 l4] s4] eqn:R.
-      destruct (Hrec _ _ _ _ _ _ (g_wf _ _ G1) R) as [G4 S4].
-      destruct (finish_call_ok s false (o4, l4, s4) o l s' W G4 H) as (A & B & C).
-      splits; auto; try (intros St _; apply C; eapply same_trans; [apply same_snapshot | apply S4; auto]).
-    - (* DELEGATECALL *)
-      cbv zeta in H. set (s1 := snd (snapshot s)) in *.
-      assert (G1 : good s s1) by (apply good_snapshot; auto).
-      destruct (rec (mkCtx (self cx) (static cx) (depth cx + 1)) (code_of (dat s1) target) s1) as [[o4 l4] s4] eqn:R.
-      destruct (Hrec _ _ _ _ _ _ (g_wf _ _ G1) R) as [G4 S4].
-      destruct (finish_call_ok s true (o4, l4, s4) o l s' W G4 H) as (A & B & C).
-      splits; auto; try (intros St _; apply C; eapply same_trans; [apply same_snapshot | apply S4; auto]).
-    - (* STATICCALL *)
-      cbv zeta in H. set (s1 := snd (snapshot s)) in *.
-      assert (G1 : good s s1) by (apply good_snapshot; auto).
-      set (s2 := push (add_balance target 0) s1) in *.
-      assert (S2 : same s s2).
-      { eapply same_trans; [apply same_snapshot|]. apply push_id. apply add_balance_zero. }
-      assert (G2 : good s1 s2).
-      { apply good_push; auto using add_balance_ok, kl_add_balance. apply G1. }
-      destruct (rec (mkCtx target true (depth cx + 1)) (code_of (dat s2) target) s2) as [[o4 l4] s4] eqn:R.
-      destruct (Hrec _ _ _ _ _ _ (g_wf _ _ G2) R) as [G4 S4].
-      destruct (finish_call_ok s true (o4, l4, s4) o l s' W (good_trans _ _ _ G2 G4) H) as (A & B & C).
-      splits; auto; try (intros _ _; apply C; eapply same_trans; [exact S2 | apply S4; auto]).
+      assert (G2 : good s1 (push (add_balance target 0) s1))
+        by (apply good_push; auto using add_balance_ok, kl_add_balance; apply snapshot_wf; auto).
+      destruct (enter_ok _ _ _ _ _ _ _ _ W G2 H) as (A & B & C).
+      splits; auto. intros _ CF PE _. apply C; auto.
+      eapply same_trans; [apply same_snapshot|]. apply push_id. apply add_balance_zero.
   Qed.
 
   (* a STATICCALL leaves data and journal untouched whatever the callee does and however it ends *)
   Lemma static_call_same cx target value s o l s' :
-    wf s -> do_call rec cx KStatic target value s = (o, l, s') -> same s s'.
+    wf s -> custom_free progs -> pc_exist (dat s) ->
+    do_call rec cx KStatic target value s = (o, l, s') -> same s s'.
   Proof.
-    intros W H. unfold do_call in H.
+    intros W CF PE H. unfold do_call in H.
     destruct (max_depth <? depth cx). { inversion H; subst; apply same_refl. }
     cbv zeta in H. set (s1 := snd (snapshot s)) in *.
-    assert (G1 : good s s1) by (apply good_snapshot; auto).
-    set (s2 := push (add_balance target 0) s1) in *.
-    assert (S2 : same s s2).
-    { eapply same_trans; [apply same_snapshot|]. apply push_id. apply add_balance_zero. }
-    assert (G2 : good s1 s2).
-    { apply good_push; auto using add_balance_ok, kl_add_balance. apply G1. }
-    destruct (rec (mkCtx target true (depth cx + 1)) (code_of (dat s2) target) s2) as [[o4 l4] s4] eqn:R.
-    destruct (Hrec _ _ _ _ _ _ (g_wf _ _ G2) R) as [G4 S4].
-    destruct (finish_call_ok s true (o4, l4, s4) o l s' W (good_trans _ _ _ G2 G4) H) as (A & B & C).
-    apply C. eapply same_trans; [exact S2 | apply S4; auto].
+    assert (G2 : good s1 (push (add_balance target 0) s1))
+      by (apply good_push; auto using add_balance_ok, kl_add_balance; apply snapshot_wf; auto).
+    destruct (enter_ok _ _ _ _ _ _ _ _ W G2 H) as (A & B & C).
+    apply C; auto.
+    eapply same_trans; [apply same_snapshot|]. apply push_id. apply add_balance_zero.
+  Qed.
+
+  (* evm.AuthCall: a failed frame leaves exactly the authority's nonce bump *)
+  Definition authcall_pre (authority : addr) (s : state) : state :=
+    push (set_nonce authority (wrap64 (nonce_of (dat s) authority + 1))) s.
+
+  Lemma do_authcall_ok cx authority target value s o l s' :
+    wf s -> do_authcall rec cx authority target value s = (o, l, s') ->
+    good s s' /\ (is_fail o = true -> noop s s' \/ noop (authcall_pre authority s) s').
+  Proof.
+    intros W H. unfold do_authcall in H.
+    destruct (max_depth <? depth cx). { inversion H; subst. split; auto using good_refl, noop_refl. }
+    destruct (negb (value =? 0) && (bal (dat s) (origin cx) <? value)).
+    { inversion H; subst. split; auto using good_refl, noop_refl. }
+    cbv zeta in H. fold (authcall_pre authority s) in H.
+    assert (G0 : good s (authcall_pre authority s)) by (apply good_push; auto using set_nonce_ok, kl_set_nonce).
+    destruct (call_body_ok _ _ _ _ _ _ _ _ (g_wf _ _ G0) H) as (A & B & _).
+    split; [eapply good_trans; eauto | auto].
   Qed.
 
   (* the state a failed creation is compared with: the effects evm.create performs before its Snapshot *)
   Definition create_pre (cx : ctx) (address : addr) (orc : list addr) (s : state) : state :=
-    let s0 := mkState (dat s) (journal s) (revs s) (next_rev s) (thash s) (txindex s) orc in
-    push (acl_add address) (push (set_nonce (self cx) (nonce_of (dat s0) (self cx) + 1)) s0).
+    let s0 := with_oracle s orc in
+    push (acl_add address) (push (set_nonce (self cx) (wrap64 (nonce_of (dat s0) (self cx) + 1))) s0).
 
-  Lemma with_oracle_good s orc : wf s ->
-    good s (mkState (dat s) (journal s) (revs s) (next_rev s) (thash s) (txindex s) orc).
-  Proof.
-    intros W. apply good_noop; auto. unfold noop; cbn. splits; auto; try lia. apply deq_refl.
-  Qed.
-
+  (* the state after a creation whose code deposit could not be paid: NOT the state before it *)
   Lemma do_create_ok cx value init s o l s' :
     wf s -> do_create progs rec cx value init s = (o, l, s') ->
     good s s' /\
@@ -214,8 +277,8 @@ Section Frames.
     destruct (bal (dat s) (self cx) <? value). { inversion H; subst. split; auto using good_refl, noop_refl. }
     destruct (oracle s) as [|address orc] eqn:O. { inversion H; subst. split; auto using good_refl. cbn; discriminate. }
     cbv zeta in H.
-    set (s0 := mkState (dat s) (journal s) (revs s) (next_rev s) (thash s) (txindex s) orc) in *.
-    set (s1 := push (set_nonce (self cx) (nonce_of (dat s0) (self cx) + 1)) s0) in *.
+    set (s0 := with_oracle s orc) in *.
+    set (s1 := push (set_nonce (self cx) (wrap64 (nonce_of (dat s0) (self cx) + 1))) s0) in *.
     set (s2 := push (acl_add address) s1) in *.
     assert (G0 : good s s0) by (apply with_oracle_good; auto).
     assert (G1 : good s0 s1) by (apply good_push; auto using set_nonce_ok, kl_set_nonce; apply G0).
@@ -233,21 +296,23 @@ Section Frames.
     assert (G5 : good s4 s5) by (apply good_push; auto using set_nonce_ok, kl_set_nonce; apply G4).
     assert (G6 : good s5 s6) by (apply good_push; auto using transfer_ok, kl_transfer; apply G5).
     assert (G36 : good s3 s6) by (eauto using good_trans).
-    destruct (rec (mkCtx address (static cx) (depth cx + 1)) init s6) as [[o7 l7] s7] eqn:R.
+    destruct (rec (mkCtx address (static cx) (depth cx + 1) (origin cx)) init s6) as [[o7 l7] s7] eqn:R.
     destruct (Hrec _ _ _ _ _ _ (g_wf _ _ G6) R) as [G7 _].
     assert (G37 : good s3 s7) by (eauto using good_trans).
-    destruct o7.
+    assert (FC : forall o7', finish_call (fst (snapshot s2)) true (o7', l7, s7) = (o, l, s') ->
+                 good s s' /\ (is_fail o = true -> noop s s' \/
+                   exists address0 orc0, address :: orc = address0 :: orc0 /\ noop (create_pre cx address0 orc0 s) s')).
+    { intros o7' HF.
+      destruct (finish_call_ok s2 true (o7', l7, s7) o l s' (g_wf _ _ G02) G37 HF) as (A & B & _).
+      split; [eapply good_trans; eauto|]. intros F. right. exists address, orc. split; auto. }
+    destruct o7; try (apply FC in H; exact H).
+    destruct (ret_big (lookup progs init)); [apply FC in H; exact H|].
+    destruct (hd 0 (oracle s6) =? 1000).
+    - inversion H; subst. split; [|cbn; discriminate].
+      eapply good_trans; [exact G02|]. eapply good_trans; [exact G3|]. exact G37.
     - inversion H; subst. split; [|cbn; discriminate].
       eapply good_trans; [exact G02|]. eapply good_trans; [exact G3|]. eapply good_trans; [exact G37|].
       apply good_push; auto using set_code_ok, kl_set_code. apply G37.
-    - destruct (finish_call_ok s2 true (ORevert, l7, s7) o l s' (g_wf _ _ G02) G37 H) as (A & B & _).
-      split; [eapply good_trans; eauto|]. intros F. right. exists address, orc. split; auto.
-    - destruct (finish_call_ok s2 true (OErr code, l7, s7) o l s' (g_wf _ _ G02) G37 H) as (A & B & _).
-      split; [eapply good_trans; eauto|]. intros F. right. exists address, orc. split; auto.
-    - destruct (finish_call_ok s2 true (OFuel, l7, s7) o l s' (g_wf _ _ G02) G37 H) as (A & B & _).
-      split; [eapply good_trans; eauto|]. intros F. right. exists address, orc. split; auto.
-    - destruct (finish_call_ok s2 true (OPanic, l7, s7) o l s' (g_wf _ _ G02) G37 H) as (A & B & _).
-      split; [eapply good_trans; eauto|]. intros F. right. exists address, orc. split; auto.
   Qed.
 
   Lemma do_selfdestruct_good cx b s : wf s -> good s (do_selfdestruct cx b s).
@@ -263,6 +328,51 @@ Section Frames.
     apply good_push; auto using suicide_ok, kl_suicide. apply G2.
   Qed.
 
+  (* the custom opcodes change the state through journalled primitives only *)
+  Lemma good_set_state a k v s : wf s -> good s (push (set_state a k v) s).
+  Proof. intros; apply good_push; auto using set_state_ok, kl_set_state. Qed.
+
+  Lemma do_stake_good cx t s : wf s -> good s (do_stake cx t s).
+  Proof.
+    intros W. unfold do_stake.
+    destruct (reg_status (dat s) (self cx) =? 0); [apply good_refl; auto|].
+    destruct (t =? 0); [apply good_refl; auto|].
+    destruct (bal (dat s) (self cx) <? t * unit18); [apply good_refl; auto|].
+    cbv zeta.
+    set (s1 := push (sub_balance (self cx) (t * unit18)) s).
+    assert (G1 : good s s1) by (apply good_push; auto using sub_balance_ok, kl_sub_balance).
+    eapply good_trans; [exact G1|].
+    eapply good_trans; [apply good_set_state; apply G1|].
+    apply good_set_state. apply good_set_state. apply G1.
+  Qed.
+
+  Lemma take_stake_good a m s : wf s -> good s (take_stake a m s).
+  Proof.
+    intros W. unfold take_stake. cbv zeta.
+    destruct (reg_stake (dat s) a - m <? min_stake).
+    - eapply good_trans; [apply good_set_state; auto|]. apply good_set_state. apply good_set_state; auto.
+    - apply good_set_state; auto.
+  Qed.
+
+  Lemma escrow_add_good who v s : wf s -> good s (escrow_add who v s).
+  Proof. intros; apply good_set_state; auto. Qed.
+
+  Lemma do_unstake_good cx t s : wf s -> good s (do_unstake cx t s).
+  Proof.
+    intros W. unfold do_unstake.
+    destruct (reg_status (dat s) (self cx) =? 0); [apply good_refl; auto|].
+    destruct (reg_stake (dat s) (self cx) <? t); [apply good_refl; auto|].
+    eapply good_trans; [apply take_stake_good; auto|]. apply escrow_add_good. apply take_stake_good; auto.
+  Qed.
+
+  Lemma do_unstakeall_good cx s s' : wf s -> do_unstakeall cx s = Some s' -> good s s'.
+  Proof.
+    intros W. unfold do_unstakeall.
+    destruct (reg_status (dat s) (self cx) =? 0); [discriminate|].
+    intros H; inversion H; subst.
+    eapply good_trans; [apply take_stake_good; auto|]. apply escrow_add_good. apply take_stake_good; auto.
+  Qed.
+
   Lemma finish_ok cx f clogs s o l s' :
     wf s -> finish cx f clogs s = (o, l, s') -> good s s' /\ (static cx = true -> same s s').
   Proof.
@@ -274,67 +384,161 @@ Section Frames.
     - intros St. rewrite St in E. cbn in E. discriminate.
   Qed.
 
-  Lemma run_acts_ok cx f : forall l clogs s o lg s',
-    wf s -> run_acts progs rec cx l f clogs s = (o, lg, s') -> good s s' /\ (static cx = true -> same s s').
+  Definition nocustom (l : list action) : Prop := forallb (fun a => negb (is_custom a)) l = true.
+
+  (* static clause of a run over the action list l *)
+  Definition sclause (cx : ctx) (l : list action) (s s' : state) : Prop :=
+    static cx = true -> custom_free progs -> pc_exist (dat s) -> nocustom l -> same s s'.
+
+  Lemma sclause_die cx l s : sclause cx l s s.
+  Proof. intros _ _ _ _; apply same_refl. Qed.
+
+  Lemma after_sub_ok cx rest r (k : list log -> state -> rres) clogs s o lg s' :
+    (let '(_, _, s1) := r in good s s1 /\ (static cx = true -> custom_free progs -> pc_exist (dat s) -> same s s1)) ->
+    (forall cl s1 o lg s', wf s1 -> k cl s1 = (o, lg, s') -> good s1 s' /\ sclause cx rest s1 s') ->
+    after_sub r k clogs = (o, lg, s') ->
+    good s s' /\ (static cx = true -> custom_free progs -> pc_exist (dat s) -> nocustom rest -> same s s').
   Proof.
-    induction l as [|a rest IH]; intros clogs s o lg s' W H; cbn [run_acts] in H.
-    { eapply finish_ok; eauto. }
-    destruct (static cx && refused_static a) eqn:E.
-    { inversion H; subst. split; auto using good_refl, same_refl. }
-    destruct a.
-    - (* SSTORE *)
-      assert (St : static cx = false) by (destruct (static cx); auto; cbn in E; discriminate).
-      set (s1 := push (set_state (self cx) k v) s) in *.
-      assert (G1 : good s s1) by (apply good_push; auto using set_state_ok, kl_set_state).
-      destruct (IH _ _ _ _ _ (g_wf _ _ G1) H) as [G S].
-      split; [eapply good_trans; eauto|]. intros X; congruence.
-    - (* LOG *)
-      assert (St : static cx = false) by (destruct (static cx); auto; cbn in E; discriminate).
-      cbv zeta in H.
-      set (lg0 := mkLog (self cx) topic (thash s) (txindex s) (logsize (dat s))) in *.
-      set (s1 := push (add_log (thash s) lg0) s) in *.
-      assert (G1 : good s s1) by (apply good_push; auto using add_log_ok, kl_add_log).
-      destruct (IH _ _ _ _ _ (g_wf _ _ G1) H) as [G S].
-      split; [eapply good_trans; eauto|]. intros X; congruence.
-    - (* TSTORE *)
-      destruct (static cx) eqn:St.
-      { inversion H; subst. split; auto using good_refl, same_refl. }
-      set (s1 := push (set_transient (self cx) k v) s) in *.
-      assert (G1 : good s s1) by (apply good_push; auto using set_transient_ok, kl_set_transient).
-      destruct (IH _ _ _ _ _ (g_wf _ _ G1) H) as [G S].
-      split; [eapply good_trans; eauto|]. intros X; congruence.
-    - (* CALL family *)
-      destruct (do_call rec cx kind target value s) as [[o1 l1] s1] eqn:C.
-      destruct (do_call_ok _ _ _ _ _ _ _ _ W C) as (G1 & _ & S1).
-      assert (S1' : static cx = true -> same s s1).
-      { intros St. apply S1; auto. intros K; subst kind. rewrite St in E. cbn in E.
-        destruct (value =? 0) eqn:V; [apply N.eqb_eq in V; auto | cbn in E; discriminate]. }
-      destruct o1;
-        try (destruct (IH _ _ _ _ _ (g_wf _ _ G1) H) as [G S];
-             split; [eapply good_trans; eauto | intros St; eapply same_trans; eauto]);
-        inversion H; subst; split; auto.
-    - (* CREATE *)
-      assert (St : static cx = false) by (destruct (static cx); auto; cbn in E; discriminate).
-      destruct (do_create progs rec cx value init s) as [[o1 l1] s1] eqn:C.
-      destruct (do_create_ok _ _ _ _ _ _ _ W C) as (G1 & _).
-      destruct o1;
-        try (destruct (IH _ _ _ _ _ (g_wf _ _ G1) H) as [G S];
-             split; [eapply good_trans; eauto | intros X; congruence]);
-        inversion H; subst; split; auto; intros X; congruence.
+    intros R K H. destruct r as [[o1 l1] s1]. destruct R as [G1 S1]. unfold after_sub in H.
+    assert (X : k (clogs ++ l1) s1 = (o, lg, s') ->
+                good s s' /\ (static cx = true -> custom_free progs -> pc_exist (dat s) -> nocustom rest -> same s s')).
+    { intros HK. destruct (K _ _ _ _ _ (g_wf _ _ G1) HK) as [G S].
+      split; [eapply good_trans; eauto|]. intros St CF PE NC.
+      eapply same_trans; [apply S1; auto|]. apply S; auto. eapply pc_exist_same; eauto. }
+    destruct o1; auto; inversion H; subst; split; auto; intros St CF PE NC; apply S1; auto.
+  Qed.
+
+  Lemma nocustom_cons a rest : nocustom (a :: rest) -> is_custom a = false /\ nocustom rest.
+  Proof. unfold nocustom. cbn. intros H. apply andb_true_iff in H. destruct H as [A B]. split; auto. destruct (is_custom a); auto; discriminate. Qed.
+
+  Lemma run_acts_ok cx f : forall l lc clogs s o lg s',
+    wf s -> run_acts progs rec cx lc l f clogs s = (o, lg, s') ->
+    good s s' /\ sclause cx l s s'.
+  Proof.
+    induction l as [|a rest IH]; intros lc clogs s o lg s' W H; cbn [run_acts] in H.
+    { destruct (l_fate lc) as [[|k]|].
+      - inversion H; subst. split; auto using good_refl, sclause_die.
+      - destruct (finish_ok _ _ _ _ _ _ _ W H); split; auto. intros St _ _ _; auto.
+      - destruct (finish_ok _ _ _ _ _ _ _ W H); split; auto. intros St _ _ _; auto. }
+    assert (MAIN : forall lc0,
+      (if static cx && refused_static a
+       then (OErr err_write_protection, [], s)
+       else match a with
+        | ASstore k v => run_acts progs rec cx lc0 rest f clogs (push (set_state (self cx) k v) s)
+        | ALog t =>
+            run_acts progs rec cx lc0 rest f (clogs ++ [mkLog (self cx) t (thash s) (txindex s) (logsize (dat s))])
+              (push (add_log (thash s) (mkLog (self cx) t (thash s) (txindex s) (logsize (dat s)))) s)
+        | ATstore k v =>
+            if static cx then (OErr err_write_protection, [], s)
+            else run_acts progs rec cx lc0 rest f clogs (push (set_transient (self cx) k v) s)
+        | ACall kind target value =>
+            after_sub (do_call rec cx kind target value s) (run_acts progs rec cx lc0 rest f) clogs
+        | ACallCreated kind value =>
+            after_sub (do_call rec cx kind (l_created lc0) value s) (run_acts progs rec cx lc0 rest f) clogs
+        | ACreate value init =>
+            let '(o, lg, s') := do_create progs rec cx value init s in
+            let created := match o with
+                           | OOk => match oracle s with x :: _ => x | [] => 0 end
+                           | _ => 0
+                           end in
+            after_sub (o, lg, s') (run_acts progs rec cx (mkLoc created (l_auth lc0) (l_fate lc0)) rest f) clogs
+        | AStake t => run_acts progs rec cx lc0 rest f clogs (do_stake cx t s)
+        | AUnstake t => run_acts progs rec cx lc0 rest f clogs (do_unstake cx t s)
+        | AUnstakeAll =>
+            match do_unstakeall cx s with
+            | Some s' => run_acts progs rec cx lc0 rest f clogs s'
+            | None => (OErr err_custom, [], s)
+            end
+        | AAuth inv authority =>
+            run_acts progs rec cx (mkLoc (l_created lc0) (if self cx =? inv then Some authority else None) (l_fate lc0)) rest f clogs s
+        | AAuthCall n target value =>
+            match l_auth lc0 with
+            | None => run_acts progs rec cx lc0 rest f clogs (push (acl_add target) s)
+            | Some authority =>
+                if nonce_of (dat (push (acl_add target) s)) authority =? n
+                then after_sub (do_authcall rec cx authority target value (push (acl_add target) s)) (run_acts progs rec cx lc0 rest f) clogs
+                else run_acts progs rec cx lc0 rest f clogs (push (acl_add target) s)
+            end
+        end) = (o, lg, s') -> good s s' /\ sclause cx (a :: rest) s s').
+    { intros lc0 H0.
+      destruct (static cx && refused_static a) eqn:E.
+      { inversion H0; subst. split; auto using good_refl, sclause_die. }
+      assert (STEP : forall lc' cl s1, good s s1 ->
+                (static cx = true -> custom_free progs -> pc_exist (dat s) -> is_custom a = false -> same s s1) ->
+                run_acts progs rec cx lc' rest f cl s1 = (o, lg, s') ->
+                good s s' /\ sclause cx (a :: rest) s s').
+      { intros lc' cl s1 G1 S1 HR.
+        destruct (IH _ _ _ _ _ _ (g_wf _ _ G1) HR) as [G S].
+        split; [eapply good_trans; eauto|].
+        intros St CF PE NC. destruct (nocustom_cons _ _ NC) as [NA NR].
+        eapply same_trans; [apply S1; auto|]. apply S; auto. eapply pc_exist_same; eauto. }
+      assert (SUB : forall lc' r, (let '(_, _, s1) := r in good s s1 /\ (static cx = true -> custom_free progs -> pc_exist (dat s) -> is_custom a = false -> same s s1)) ->
+                after_sub r (run_acts progs rec cx lc' rest f) clogs = (o, lg, s') ->
+                good s s' /\ sclause cx (a :: rest) s s').
+      { intros lc' r R HA. destruct r as [[o1 l1] s1]. destruct R as [G1 S1].
+        unfold after_sub in HA.
+        assert (X : forall cl, run_acts progs rec cx lc' rest f cl s1 = (o, lg, s') -> good s s' /\ sclause cx (a :: rest) s s')
+          by (intros cl HR; eapply STEP; eauto).
+        destruct o1; eauto; inversion HA; subst; split; auto; intros St CF PE NC;
+          destruct (nocustom_cons _ _ NC) as [NA NR]; apply S1; auto. }
+      assert (NST : writes_flag a = true -> static cx = false).
+      { intros Wf. destruct (static cx); auto. cbn in E. unfold refused_static in E. rewrite Wf in E. discriminate. }
+      destruct a.
+      - eapply STEP; [apply good_set_state; auto | intros St; rewrite NST in St by reflexivity; discriminate | exact H0].
+      - eapply STEP; [apply good_push; auto using add_log_ok, kl_add_log | intros St; rewrite NST in St by reflexivity; discriminate | exact H0].
+      - destruct (static cx) eqn:St.
+        + inversion H0; subst; split; auto using good_refl, sclause_die.
+        + eapply STEP; [apply good_push; auto using set_transient_ok, kl_set_transient | intros X; discriminate | exact H0].
+      - destruct (do_call rec cx kind target value s) as [[o1 l1] s1] eqn:C.
+        destruct (do_call_ok _ _ _ _ _ _ _ _ W C) as (G1 & _ & S1).
+        eapply SUB; [|exact H0]. split; auto. intros St CF PE _. apply S1; auto.
+        intros K; subst kind. rewrite St in E. cbn in E.
+        destruct (value =? 0) eqn:V; [apply N.eqb_eq in V; auto | cbn in E; discriminate].
+      - destruct (do_create progs rec cx value init s) as [[o1 l1] s1] eqn:C.
+        destruct (do_create_ok _ _ _ _ _ _ _ W C) as (G1 & _).
+        eapply SUB; [|exact H0]. split; auto. intros St; rewrite NST in St by reflexivity; discriminate.
+      - destruct (do_call rec cx kind (l_created lc0) value s) as [[o1 l1] s1] eqn:C.
+        destruct (do_call_ok _ _ _ _ _ _ _ _ W C) as (G1 & _ & S1).
+        eapply SUB; [|exact H0]. split; auto. intros St CF PE _. apply S1; auto.
+        intros K; subst kind. rewrite St in E. cbn in E.
+        destruct (value =? 0) eqn:V; [apply N.eqb_eq in V; auto | cbn in E; discriminate].
+      - eapply STEP; [apply do_stake_good; auto | intros _ _ _ X; discriminate | exact H0].
+      - eapply STEP; [apply do_unstake_good; auto | intros _ _ _ X; discriminate | exact H0].
+      - destruct (do_unstakeall cx s) as [s1|] eqn:U.
+        + eapply STEP; [eapply do_unstakeall_good; eauto | intros _ _ _ X; discriminate | exact H0].
+        + inversion H0; subst; split; auto using good_refl, sclause_die.
+      - eapply STEP; [apply good_refl; auto | intros; apply same_refl | exact H0].
+      - assert (G0 : good s (push (acl_add target) s)) by (apply good_push; auto using acl_add_ok, kl_acl_add).
+        destruct (l_auth lc0) as [authority|].
+        + destruct (nonce_of (dat (push (acl_add target) s)) authority =? n).
+          * destruct (do_authcall rec cx authority target value (push (acl_add target) s)) as [[o1 l1] s1] eqn:C.
+            destruct (do_authcall_ok _ _ _ _ _ _ _ _ (g_wf _ _ G0) C) as (G1 & _).
+            eapply SUB; [|exact H0]. split; [eapply good_trans; eauto | intros _ _ _ X; discriminate].
+          * eapply STEP; [exact G0 | intros _ _ _ X; discriminate | exact H0].
+        + eapply STEP; [exact G0 | intros _ _ _ X; discriminate | exact H0]. }
+    destruct (l_fate lc) as [[|k0]|] eqn:FATE.
+    - inversion H; subst. split; auto using good_refl, sclause_die.
+    - cbv zeta in H. eapply MAIN; exact H.
+    - cbv zeta in H. eapply MAIN; exact H.
   Qed.
 
   Lemma run_code_ok cx c s o l s' :
-    wf s -> run_code progs rec cx c s = (o, l, s') -> good s s' /\ (static cx = true -> same s s').
+    wf s -> run_code progs rec cx c s = (o, l, s') -> good s s' /\ static_same progs (static cx) s s'.
   Proof.
-    unfold run_code. destruct (lookup progs c).
-    - apply run_acts_ok.
-    - intros W H; inversion H; subst; split; auto using good_refl, same_refl.
+    unfold run_code. intros W H. destruct (lookup progs c) as [p|] eqn:L.
+    - destruct (pop_oracle s) as [x s1] eqn:P.
+      destruct (pop_oracle_good _ _ _ W P) as [G1 S1].
+      destruct (run_acts_ok cx (fin p) _ _ _ _ _ _ _ (g_wf _ _ G1) H) as [G S].
+      split; [eapply good_trans; eauto|]. intros St CF PE. eapply same_trans; [exact S1|]. apply S; auto.
+      + eapply pc_exist_same; eauto.
+      + exact (CF _ _ L).
+    - inversion H; subst; split; auto using good_refl. intros _ _ _; apply same_refl.
   Qed.
 End Frames.
 
-Lemma run_ok progs fuel : rec_ok (run progs fuel).
+Lemma run_ok progs fuel : rec_ok progs (run progs fuel).
 Proof.
   induction fuel as [|f IH]; intros cx c s o l s' W H; cbn [run] in H.
-  - inversion H; subst; split; auto using good_refl, same_refl.
+  - inversion H; subst; split; auto using good_refl. intros _ _ _; apply same_refl.
   - eapply run_code_ok; eauto.
 Qed.
